@@ -227,7 +227,7 @@ def run(ctx):
     if getattr(ctx, "replay", None) and isinstance(ctx.replay.get("replay"), dict) and "case" in ctx.replay["replay"]:
         cases = [ctx.replay["replay"]["case"]]
     else:
-        n = 400 if ctx.tier == "quick" else 2500
+        n = 300 if ctx.tier == "quick" else 1600
         cases = [json.loads(json.dumps(c)) for c in CORPUS]
         while len(cases) < n:
             cases.append(gen_case(rng, big=(ctx.tier != "quick" and rng.random() < 0.3)))
